@@ -327,7 +327,7 @@ func replay(c *hx.Ctx, raw json.RawMessage) {
 		if err := json.Unmarshal(raw, &p); err != nil {
 			panic(err)
 		}
-		doChain(c, &p)
+		safeChain(c, &p)
 	default:
 		var h Hist
 		if err := json.Unmarshal(raw, &h); err != nil {
